@@ -188,6 +188,24 @@ class Family:
     def max_lines(self, model):
         return 1
 
+    def view_enabled(self, hp):
+        return True
+
+    def fresh_model(self, hp):
+        """the model of a view freshly read from a header described by hp"""
+        return hp
+
+    def merge(self, hp, vp):
+        """header model after the view (contents vp) rewrote the header"""
+        return vp
+
+    def door_view(self, op):
+        """what a property assignment / direct edit does to the retained view: keep | link | drop"""
+        return "keep"
+
+    def expandable(self, m):
+        return self.valid(m)
+
 
 # ----------------------------------------------------------------------------- engine
 
@@ -201,10 +219,28 @@ def hdr_snapshot(ctx):
     return tuple(ctx.r.headers)
 
 
-def step(fam, ctx, model, op, check=True):
-    """Apply op to the real response and to the model. -> (violations, new model or None if pruned)"""
+DOOR_OPS = {"assign", "hdr_set", "hdr_del", "delprop", "mimetype_set", "ctype_set"}
+
+
+def step(fam, ctx, M, op, check=True):
+    """Apply op to the real response and to the model.  M = (hp, vp): hp is the family model of the header,
+    vp the family model of the retained view's own contents (None: no view retained).  A view stays retained
+    when the header is changed through another door (property assignment, direct edit); what is demanded
+    after a later mutation of that view is that the header is rewritten from the *view's* contents (merged
+    with whatever part of the header the view does not stand for, e.g. the media type for mimetype_params).
+    -> (violations, new M or None if pruned)"""
     out = []
-    exp = fam.expect(model, op)            # may raise Skip
+    hp, vp = M
+    n = op[0]
+    door = n in DOOR_OPS
+    if door or n == "reobtain":
+        exp = fam.expect(hp, op)            # may raise Skip
+        base = None
+    else:
+        if not fam.view_enabled(hp):
+            raise Skip()
+        base = vp if vp is not None else fam.fresh_model(hp)
+        exp = fam.expect(base, op)
     before_hdr = hdr_snapshot(ctx)
     before_view = fam.vrep(ctx.view) if ctx.view is not None else None
     try:
@@ -217,15 +253,20 @@ def step(fam, ctx, model, op, check=True):
         out.append((f"{fam.name}:{op[0]}:{check_name}",
                     {"family": fam.name, "params": fam.params, "check": check_name, "op": op, "exp": expd, "got": got}))
 
+    def unchanged():
+        # the op failed / was refused: the view (possibly just obtained) keeps its contents
+        return (hp, base if (ctx.view is not None and base is not None) else vp)
+
+    cands = None
     new = exp.model
     if exp.lenient:
         if res in ("ValueError", "TypeError"):
             if hdr_snapshot(ctx) != before_hdr or (before_view is not None and fam.vrep(ctx.view) != before_view):
                 bad("rejected-but-changed", (before_hdr, before_view), (hdr_snapshot(ctx), fam.vrep(ctx.view)))
                 return out, None
-            new = model
+            cands = [unchanged()]
         elif res is None:
-            new = fam.model_from_view(ctx.view, model)
+            new = fam.model_from_view(ctx.view, base)
         else:
             bad("raised", "ValueError/TypeError or accepted", res)
             return out, None
@@ -236,14 +277,28 @@ def step(fam, ctx, model, op, check=True):
         if hdr_snapshot(ctx) != before_hdr:
             bad("failed-but-changed", before_hdr, hdr_snapshot(ctx))
             return out, None
-        new = model
+        cands = [unchanged()]
     elif res is not None:
         bad("raised", "no exception", res)
         return out, None
-    if exp.drop:
-        ctx.view = None
+    if cands is None:
+        if n == "reobtain":
+            cands = [(new, new)]
+        elif door:
+            how = fam.door_view(op)
+            if how == "drop":
+                ctx.view = None
+            cands = [(new, new if how == "link" else None if how == "drop" else vp)]
+        else:
+            fired = fam.merge(hp, new)
+            cands = [(fired, new)]
+            if fam.view_content(new) == fam.view_content(base) and fired != hp:
+                # the call did not change the view's contents: whether a stale header is rewritten is not stated
+                cands.append((hp, new))
     if exp.nocheck or not check:
-        return out, new
+        if len(cands) > 1:
+            cands = [c for c in cands if not coherence(fam, ctx, c, op)] or cands
+        return out, cands[0]
     if exp.readback is not None and res is None and ctx.view is not None:
         getter, want = exp.readback
         try:
@@ -252,29 +307,37 @@ def step(fam, ctx, model, op, check=True):
             got = ("exc", cat(e))
         if got != want or type(got) is not type(want):
             bad("readback", want, got)
-    wrote = hdr_snapshot(ctx) != before_hdr and not exp.drop
-    out += coherence(fam, ctx, new, op, wrote)
-    return out, (new if not out else None)
+    wrote = hdr_snapshot(ctx) != before_hdr and not door
+    results = [(c, coherence(fam, ctx, c, op, wrote)) for c in cands]
+    clean = [c for c, v in results if not v]
+    if clean and not out:
+        return out, clean[0]
+    out += results[0][1]
+    return out, None
 
 
-def coherence(fam, ctx, model, op, wrote=False):
+def coherence(fam, ctx, M, op, wrote=False):
     out = []
+    hp, vp = M
 
     def bad(check_name, expd, got):
         out.append((f"{fam.name}:{op[0]}:{check_name}",
-                    {"family": fam.name, "params": fam.params, "check": check_name, "op": op, "exp": expd, "got": got}))
+                    {"family": fam.name, "params": fam.params, "check": check_name, "op": op, "exp": expd, "got": got,
+                     "header_model": hp, "view_model": vp}))
 
-    want = fam.content(model)
+    want = fam.content(hp)
+    if (ctx.view is None) != (vp is None):
+        raise core.Broken(f"{fam.name}: harness lost track of the retained view at {op}")
     if ctx.view is not None:
         got = fam.snap(ctx.view)
-        if got != fam.view_content(model):
-            bad("view-content", fam.view_content(model), got)
-    if not fam.valid(model):
+        if got != fam.view_content(vp):
+            bad("view-content", fam.view_content(vp), got)
+    if not fam.valid(hp):
         return out
     text = ctx.r.headers.get(fam.header)
     nlines = len(ctx.r.headers.getlist(fam.header))
-    if nlines > fam.max_lines(model):
-        bad("header-repeated", fam.max_lines(model), nlines)
+    if nlines > fam.max_lines(hp):
+        bad("header-repeated", fam.max_lines(hp), nlines)
         return out
     if want is None:
         if text is not None:
@@ -296,12 +359,12 @@ def coherence(fam, ctx, model, op, wrote=False):
         got = fam.snap(fresh)
     except Exception as e:  # noqa: BLE001
         fresh, got = None, ("exc", cat(e))
-    if got != fam.fresh_content(model):
-        bad("reread", fam.fresh_content(model), got)
-    for v, label in ((ctx.view, "view"), (fresh, "fresh")):
+    if got != fam.fresh_content(hp):
+        bad("reread", fam.fresh_content(hp), got)
+    for v, label, m in ((ctx.view, "view", vp), (fresh, "fresh", fam.fresh_model(hp))):
         if v is None:
             continue
-        for name, g, w in fam.typed(v, model):
+        for name, g, w in fam.typed(v, m):
             if g != w or type(g) is not type(w):
                 bad("typed:" + label, (name, w), (name, g))
                 break
@@ -310,7 +373,7 @@ def coherence(fam, ctx, model, op, wrote=False):
 
 def rebuild(fam, hist):
     ctx = Ctx()
-    model = fam.init_model()
+    model = (fam.init_model(), None)
     for op in hist:
         _v, model = step(fam, ctx, model, op, check=False)
         if model is None:
@@ -318,8 +381,13 @@ def rebuild(fam, hist):
     return ctx, model
 
 
-def canon(fam, ctx, model):
-    return (hdr_snapshot(ctx), fam.vrep(ctx.view) if ctx.view is not None else None, fam.mrep(model))
+def canon(fam, ctx, M):
+    return (hdr_snapshot(ctx), fam.vrep(ctx.view) if ctx.view is not None else None,
+            fam.mrep(M[0]), fam.mrep(M[1]) if M[1] is not None else None)
+
+
+def m_ok(fam, M, pred):
+    return pred(M[0]) and (M[1] is None or pred(M[1]))
 
 
 STATE_CAP = 60000
@@ -361,7 +429,7 @@ def explore(fam, R):
                     continue
                 c1 = canon(fam, ctx, new)
                 R.outcome((fam.name, c1[0]))
-                if c1 in seen or not fam.size_ok(new) or not fam.valid(new):
+                if c1 in seen or not m_ok(fam, new, fam.size_ok) or not m_ok(fam, new, fam.expandable):
                     continue
                 seen.add(c1)
                 if len(seen) > STATE_CAP:
@@ -855,6 +923,13 @@ class MimeFam(DictFam):
     def valid(self, m):
         return True
 
+    def view_enabled(self, hp):
+        return hp[0] is not None    # parameters without a content type: nothing is documented
+
+    def merge(self, hp, vp):
+        # the view stands for the parameters only: the media type is whatever the header says *now*
+        return (hp[0], vp[1])
+
     def parse(self, text):
         parts = split_top(text, ";")
         return (parts[0], [(k.lower(), v) for k, v in parse_kv_list(";".join(parts[1:]), ";")])
@@ -904,8 +979,6 @@ class MimeFam(DictFam):
             return Exp((None, ()), drop=True)
         if n == "reobtain":
             return Exp(m)
-        if m[0] is None:
-            raise Skip()            # parameters without a content type: nothing is documented
         e = self.dict_expect(m[1], op)
         if e is None:
             raise core.Broken(op)
@@ -933,6 +1006,16 @@ class WWWFam(Family):
 
     def max_lines(self, m):
         return m[3]
+
+    def expandable(self, m):
+        return not (m[1] is not None and bool(m[2]))     # token and parameters together: out of the model
+
+    def door_view(self, op):
+        if op[0] == "assign" and op[1] == "obj":
+            return "link"                                # documented: the assigned object stays live
+        if op[0] in ("assign", "delprop"):
+            return "drop"
+        return "keep"
 
     def mrep(self, m):
         return m
@@ -1123,6 +1206,8 @@ class CRFam(Family):
 
     def fresh_content(self, m):
         return (None, None, None, None) if m[0] is None else m
+
+    fresh_model = fresh_content
 
     def snap(self, v):
         return (v.units, v.start, v.stop, v.length)
